@@ -89,7 +89,7 @@ def _own_norm(name):
     """the monitor's own identifier normaliser (deliberately not the repository's)"""
     if name is None:
         return None
-    return re.sub(r'[\[\]"]', "", str(name)).lower()
+    return re.sub(r'[\[\]"`]', "", str(name)).lower()
 
 
 def install(prod=True, reg=True, own=True, tok=True):
